@@ -4,6 +4,7 @@ import (
 	"bytes"
 	"encoding/binary"
 	"encoding/json"
+	"errors"
 	"fmt"
 	"github.com/LemoFoundationLtd/lemochain-core/common"
 	"github.com/LemoFoundationLtd/lemochain-core/common/crypto"
@@ -16,6 +17,9 @@ import (
 	"strings"
 	"sync/atomic"
 )
+
+// ErrHeaderRootEncoding is returned by Header.DecodeRLP for a TxRoot/LogRoot that Header.EncodeRLP never writes
+var ErrHeaderRootEncoding = errors.New("header root must be empty (the empty trie) or the 32 bytes of another root")
 
 //go:generate gencodec -type Header -field-override headerMarshaling -out gen_header_json.go
 //go:generate gencodec -type Block -out gen_block_json.go
@@ -228,18 +232,26 @@ func (h *Header) DecodeRLP(s *rlp.Stream) error {
 		h.ParentHash, h.MinerAddress, h.VersionRoot, h.Height, h.GasLimit, h.GasUsed, h.Time, h.SignData, h.DeputyRoot, h.Extra =
 			dec.ParentHash, dec.MinerAddress, dec.VersionRoot, dec.Height, dec.GasLimit, dec.GasUsed, dec.Time, dec.SignData, dec.DeputyRoot, dec.Extra
 
-		if len(dec.TxRoot) > 0 {
-			h.TxRoot = common.BytesToHash(dec.TxRoot)
-		} else {
-			h.TxRoot = merkle.EmptyTrieHash
+		if h.TxRoot, err = decodeRoot(dec.TxRoot); err != nil {
+			return err
 		}
-		if len(dec.LogRoot) > 0 {
-			h.LogRoot = common.BytesToHash(dec.LogRoot)
-		} else {
-			h.LogRoot = merkle.EmptyTrieHash
+		if h.LogRoot, err = decodeRoot(dec.LogRoot); err != nil {
+			return err
 		}
 	}
 	return err
+}
+
+// decodeRoot reads a TxRoot/LogRoot as EncodeRLP writes it: nothing for the root of the empty trie, the 32 bytes of any
+// other root. Everything else is a second encoding of some header and is refused.
+func decodeRoot(b []byte) (common.Hash, error) {
+	if len(b) == 0 {
+		return merkle.EmptyTrieHash, nil
+	}
+	if len(b) != common.HashLength || common.BytesToHash(b) == merkle.EmptyTrieHash {
+		return common.Hash{}, ErrHeaderRootEncoding
+	}
+	return common.BytesToHash(b), nil
 }
 
 func (b *Block) Hash() common.Hash            { return b.Header.Hash() }
